@@ -1,7 +1,237 @@
 import Driver.Common
-open Drv
+import KatdalModel.Model.Weights
+open Np Drv Weights
 
-/-- stub driver for C15: replaced when the property's model lands -/
-def step (_line : String) : String := "bad-op"
+/-!
+  Line-protocol driver for C15.  Every float travels as the decimal value of its IEEE binary64
+  bit pattern (binary32 values are widened exactly by the harness) and is decoded *exactly* to a
+  classified rational `Scalar Rat`; results are printed as `nan`, `inf`, `-inf` or `p/q`.
+  Lists are comma separated, `-` is the empty list / None.
+
+    c2a <cps>                                   -> ai;i1;i2 | E:KeyError
+    wps <div> T F B <ai> <i1> <i2> <vis> <w>    -> weightPowerScale (mirror)
+    wspec <div> T F B <cps> <vis> <w>           -> documented kernel through the label lookup
+    vfw <scaled> T F B <cps> <re> <im> <w> <wc> <xs> <fs>   -> weights|unscaled|re|im (mirror)
+    vfwspec …same…                              -> same by the spec
+    kf32 <div> <bits32 triples a1,a2,w,…>       -> bits32 of kernelF32
+    kq <div> <f64 triples>                      -> kernelImpl;kernelSpec;infFamily flags
+    interp <xs> <fs> <x…>                       -> interpS
+    exc <nAccs|-> <dump p/q> <cbfdump p/q> <w…> -> A;d;excision values | E:ValueError
+    avg T F B timeav chanav flagav <re> <im> <w> <flags>  -> nT,nC,nB|re|im|w|flags (mirror)
+    avgspec …same…                              -> same by binSpec
+    v3 T F B selected <w|-> <wc|->              -> flat values
+-/
+
+def pow2 (k : Nat) : Rat := ((2 ^ k : Nat) : Rat)
+
+/-- exact decoding of a binary64 bit pattern -/
+def decodeF64 (n : Nat) : Scalar Rat :=
+  let neg : Bool := decide (n / 2 ^ 63 % 2 = 1)
+  let e : Nat := n / 2 ^ 52 % 2048
+  let m : Nat := n % 2 ^ 52
+  if e = 2047 then (if m = 0 then (if neg then .negInf else .posInf) else .nan)
+  else
+    let mag : Rat :=
+      if e = 0 then (m : Rat) / pow2 1074
+      else if e ≥ 1075 then ((2 ^ 52 + m : Nat) : Rat) * pow2 (e - 1075)
+      else ((2 ^ 52 + m : Nat) : Rat) / pow2 (1075 - e)
+    .val (if neg then -mag else mag)
+
+def showRat (q : Rat) : String := s!"{q.num}/{q.den}"
+
+def showScalar : Scalar Rat → String
+  | .nan => "nan"
+  | .posInf => "inf"
+  | .negInf => "-inf"
+  | .val q => showRat q
+
+def showScalars (l : List (Scalar Rat)) : String :=
+  if l.isEmpty then "-" else ",".intercalate (l.map showScalar)
+
+def parseNats (s : String) : Option (List Nat) :=
+  if s = "-" then some [] else (s.splitOn ",").mapM (·.toNat?)
+
+def parseScalars (s : String) : Option (List (Scalar Rat)) := (parseNats s).map (·.map decodeF64)
+
+def parseRat (s : String) : Option Rat :=
+  match s.splitOn "/" with
+  | [a] => (a.toInt?).map fun (i : Int) => (i : Rat)
+  | [a, b] => do
+    let i ← a.toInt?
+    let d ← b.toNat?
+    if d = 0 then none else pure (mkRat i d)
+  | _ => none
+
+def parseCps (s : String) : Option (List (String × String)) :=
+  if s = "-" then some [] else
+  (s.splitOn ",").mapM fun t =>
+    match t.splitOn ":" with
+    | [a, b] => some (a, b)
+    | _ => none
+
+def chunk {α} : Nat → Nat → List α → List (List α)
+  | 0, _, _ => []
+  | k + 1, n, l => l.take n :: chunk k n (l.drop n)
+
+def toArr3 {α} (T F B : Nat) (l : List α) : Arr3 α := (chunk T (F * B) l).map (chunk F B)
+def toArr2 {α} (T F : Nat) (l : List α) : Arr2 α := chunk T F l
+def flat3 {α} (a : Arr3 α) : List α := (a.map List.flatten).flatten
+
+def parseBool (s : String) : Option Bool := if s = "1" then some true else if s = "0" then some false else none
+
+def finiteOnly (l : List (Scalar Rat)) : Option (List Rat) :=
+  l.mapM fun | .val x => some x | _ => none
+
+def parseTable (xs fs : String) : Option (Option (List (Rat × Rat))) :=
+  if xs = "-" then some none else do
+    let x ← parseScalars xs
+    let f ← parseScalars fs
+    let x ← finiteOnly x
+    let f ← finiteOnly f
+    if x.length ≠ f.length then none else pure (some (x.zip f))
+
+def showVFW (r : Except Err (VFW Rat)) : String :=
+  showExcept (fun v =>
+    let un := match v.unscaled with
+      | none => "none"
+      | some u => showScalars (flat3 u)
+    let vis := flat3 v.vis
+    s!"{showScalars (flat3 v.weights)}|{un}|{showScalars (vis.map (·.re))}|{showScalars (vis.map (·.im))}") r
+
+def runVfw (spec : Bool) (sc T F B cps re im w wc xs fs : String) : String :=
+  match parseBool sc, T.toNat?, F.toNat?, B.toNat?, parseScalars re, parseScalars im, parseScalars w,
+        parseScalars wc, parseTable xs fs with
+  | some sc, some T, some F, some B, some re, some im, some w, some wc, some tbl =>
+    let vis : Arr3 (Cx (Scalar Rat)) := toArr3 T F B ((re.zip im).map fun (a, b) => ⟨a, b⟩)
+    let w3 := toArr3 T F B w
+    let wc2 := toArr2 T F wc
+    if cps = "none" then
+      if spec then "bad-op" else
+      showVFW (chunkStoreVFW (α := String) badWeightRat vis w3 wc2 none sc tbl)
+    else
+      match parseCps cps with
+      | some c =>
+        if spec then showVFW (chunkStoreVFWSpec badWeightRat vis w3 wc2 c sc tbl)
+        else showVFW (chunkStoreVFW badWeightRat vis w3 wc2 (some c) sc tbl)
+      | none => "bad-op"
+  | _, _, _, _, _, _, _, _, _ => "bad-op"
+
+def triples {α} : List α → List (α × α × α)
+  | a :: b :: c :: t => (a, b, c) :: triples t
+  | _ => []
+
+def mkInp (T F B : Nat) (re im w : List Rat) (fl : List Bool) : Nat → Nat → Nat → Sample Rat :=
+  let reA := re.toArray
+  let imA := im.toArray
+  let wA := w.toArray
+  let fA := fl.toArray
+  fun t f b =>
+    let i := (t * F + f) * B + b
+    if t < T ∧ f < F ∧ b < B then (⟨reA.getD i 0, imA.getD i 0⟩, wA.getD i 0, fA.getD i false)
+    else (⟨0, 0⟩, 0, false)      -- never read (theorem `c15_average_in_range`)
+
+def showAv (r : AvResult Rat) : String :=
+  let idx : List (Nat × Nat × Nat) :=
+    (List.range r.nT).flatMap fun t => (List.range r.nC).flatMap fun c => (List.range r.nB).map fun b => (t, c, b)
+  let vals := idx.map fun (t, c, b) => r.out t c b
+  let sh (l : List Rat) := if l.isEmpty then "-" else ",".intercalate (l.map showRat)
+  let fl := if vals.isEmpty then "-" else String.ofList (vals.map fun s => if s.2.2 then '1' else '0')
+  s!"{r.nT},{r.nC},{r.nB}|{sh (vals.map (·.1.re))}|{sh (vals.map (·.1.im))}|{sh (vals.map (·.2.1))}|{fl}"
+
+/-- spec side of the averager: documented bin values on the bins that fit -/
+def averageSpec (nT nC nB : Nat) (inp : Nat → Nat → Nat → Sample Rat) (timeav chanav : Nat) (flagav : Bool) :
+    Except Err (AvResult Rat) :=
+  let ta := min timeav nT
+  if ta = 0 ∨ chanav = 0 then .error .other else
+  .ok { nT := nT / ta, nC := nC / chanav, nB := nB,
+        out := fun avT avC b => binSpec flagav (binSamples inp (avT * ta) (avC * chanav) ta chanav b) }
+
+def step (line : String) : String :=
+  match line.splitOn " " with
+  | ["c2a", cps] =>
+    match parseCps cps with
+    | some c => showExcept (fun (ai, i1, i2) => s!"{showNatList ai};{showNatList i1};{showNatList i2}")
+                  (corrprodToAutocorr c)
+    | none => "bad-op"
+  | ["wps", dv, T, F, B, ai, i1, i2, vis, w] =>
+    match parseBool dv, T.toNat?, F.toNat?, B.toNat?, parseNats ai, parseNats i1, parseNats i2,
+          parseScalars vis, parseScalars w with
+    | some dv, some T, some F, some B, some ai, some i1, some i2, some vis, some w =>
+      showExcept (fun o => showScalars (flat3 o))
+        (weightPowerScale badWeightRat dv ai i1 i2 (toArr3 T F B vis) (toArr3 T F B w))
+    | _, _, _, _, _, _, _, _, _ => "bad-op"
+  | ["wspec", dv, T, F, B, cps, vis, w] =>
+    match parseBool dv, T.toNat?, F.toNat?, B.toNat?, parseCps cps, parseScalars vis, parseScalars w with
+    | some dv, some T, some F, some B, some c, some vis, some w =>
+      showExcept (fun o => showScalars (flat3 o))
+        (zipME (fun vt wt => zipME (fun vr wr => weightsRowSpec badWeightRat dv c vr wr) vt wt)
+          (toArr3 T F B vis) (toArr3 T F B w))
+    | _, _, _, _, _, _, _ => "bad-op"
+  | ["vfw", sc, T, F, B, cps, re, im, w, wc, xs, fs] => runVfw false sc T F B cps re im w wc xs fs
+  | ["vfwspec", sc, T, F, B, cps, re, im, w, wc, xs, fs] => runVfw true sc T F B cps re im w wc xs fs
+  | ["kf32", dv, bits] =>
+    match parseBool dv, parseNats bits with
+    | some dv, some l =>
+      let f (n : Nat) : Float32 := Float32.ofBits n.toUInt32
+      showNatList ((triples l).map fun (a, b, c) => (kernelF32 dv (f a) (f b) (f c)).toBits.toNat)
+    | _, _ => "bad-op"
+  | ["kq", dv, vals] =>
+    match parseBool dv, parseScalars vals with
+    | some dv, some l =>
+      let t := triples l
+      let a := t.map fun (a, b, c) => kernelImpl badWeightRat dv a b c
+      let s := t.map fun (a, b, c) => kernelSpec badWeightRat dv a b c
+      let fam := t.map fun (a, b, _) => if infFamily dv a b then '1' else '0'
+      s!"{showScalars a};{showScalars s};{String.ofList fam}"
+    | _, _ => "bad-op"
+  | ["interp", xs, fs, x] =>
+    match parseTable xs fs, parseScalars x with
+    | some (some tbl), some x => showExcept showScalars (mapME (interpS tbl) x)
+    | some none, some x => showExcept showScalars (mapME (interpS ([] : List (Rat × Rat))) x)
+    | _, _ => "bad-op"
+  | ["exc", na, dp, cp, w] =>
+    match (if na = "-" then some none else (na.toNat?).map some), parseRat dp, parseRat cp, parseScalars w with
+    | some na, some dp, some cp, some w =>
+      match finiteOnly w with
+      | some w =>
+        let d := cbfDumpsPerSdpDump dp cp
+        let A := match na with
+          | some n => accumulationsPerDump n dp cp
+          | none => 0
+        showExcept (fun o => s!"{A};{d};{",".intercalate ((flat3 o).map showRat)}")
+          (excisionOf na dp cp (some [[w]]))
+      | none => "bad-op"
+    | _, _, _, _ => "bad-op"
+  | [op, T, F, B, ta, ca, fa, re, im, w, fl] =>
+    if op ≠ "avg" ∧ op ≠ "avgspec" then "bad-op" else
+    match T.toNat?, F.toNat?, B.toNat?, ta.toNat?, ca.toNat?, parseBool fa, parseScalars re, parseScalars im,
+          parseScalars w, (if fl = "-" then some [] else parseMask fl) with
+    | some T, some F, some B, some ta, some ca, some fa, some re, some im, some w, some fl =>
+      match finiteOnly re, finiteOnly im, finiteOnly w with
+      | some re, some im, some w =>
+        let inp := mkInp T F B re im w fl
+        if op = "avg" then showExcept showAv (averageVisibilities T F B inp ta ca fa)
+        else showExcept showAv (averageSpec T F B inp ta ca fa)
+      | _, _, _ => "bad-op"
+    | _, _, _, _, _, _, _, _, _, _ => "bad-op"
+  | ["v3", T, F, B, sel, w, wc] =>
+    match T.toNat?, F.toNat?, B.toNat?, parseBool sel,
+          (if w = "-" then some none else (parseScalars w).map some),
+          (if wc = "-" then some none else (parseScalars wc).map some) with
+    | some T, some F, some B, some sel, some w, some wc =>
+      match (match w with | none => some none | some l => (finiteOnly l).map some),
+            (match wc with | none => some none | some l => (finiteOnly l).map some) with
+      | some w, some wc =>
+        let wf : Option (Nat → Nat → Nat → Rat) :=
+          w.map fun l => let a := l.toArray; fun t f b => a.getD ((t * F + f) * B + b) (0 : Rat)
+        let cf : Option (Nat → Nat → Rat) :=
+          wc.map fun l => let a := l.toArray; fun t f => a.getD (t * F + f) (0 : Rat)
+        let idx : List (Nat × Nat × Nat) :=
+          (List.range T).flatMap fun t => (List.range F).flatMap fun c => (List.range B).map fun b => (t, c, b)
+        let vals := idx.map fun (t, f, b) => v3Weights wf cf sel t f b
+        if vals.isEmpty then "-" else ",".intercalate (vals.map showRat)
+      | _, _ => "bad-op"
+    | _, _, _, _, _, _ => "bad-op"
+  | _ => "bad-op"
 
 def main : IO Unit := Drv.loop step
